@@ -19,25 +19,26 @@ Section Spec.
   Variable H : host.
   Variable funcs : list ename.
   Variable svcargs : list (ident * ident).
+  Variable now : N.                      (* logical time of the step *)
 
   (* the documented virtual fields: entity_id (the entity's name), last_updated, last_changed, last_reported (times).
      These are the harness's fixed identifier numbers, NOT read from the code; the order is irrelevant to the
      property (comparisons with the implementation ignore dict order). *)
-  Definition doc_virtual_fields : list (ident * bool) := [(100, true); (102, false); (101, false); (103, false)]%N.
-  Definition doc_virtual_attrs : list ident := map fst doc_virtual_fields.
-  Definition virtual_fields (e : ename) : attrs :=
-    map (fun f : N * bool => (fst f, if snd f then h_entstr H e else v_time)) doc_virtual_fields.
+  Definition doc_virtual_attrs : list ident := [100; 102; 101; 103]%N.
+  (* what each documented field carries: the entity's name and Home Assistant's own three time stamps *)
+  Definition virtual_fields (e : ename) (s : hastate) : attrs :=
+    [(100, h_entstr H e); (102, v_time_of (hs_lu s)); (101, v_time_of (hs_lc s)); (103, v_time_of (hs_lr s))]%N.
 
   (* R1: the snapshot of an entity *)
-  Definition snapshot_of (e : ename) (s : hastate) : pyval := PSnap (fst s) (aupdate (snd s) (virtual_fields e)).
+  Definition snapshot_of (e : ename) (s : hastate) : pyval := PSnap (hs_val s) (aupdate (hs_attrs s) (virtual_fields e s)).
 
   (* attribute k of entity e: virtual fields first (documented to take precedence), then the entity's attributes,
      then StateVal's helper methods *)
   Definition entity_attr (e : ename) (s : hastate) (k : ident) : res pyval :=
-    match alookup k (virtual_fields e) with
+    match alookup k (virtual_fields e s) with
     | Some v => Ok (PVal v)
     | None =>
-        match alookup k (snd s) with
+        match alookup k (hs_attrs s) with
         | Some v => Ok (PVal v)
         | None => if mem_ident k state_callable_attrs then Ok PFunc else Raise EAttributeError
         end
@@ -108,7 +109,7 @@ Section Spec.
     end.
 
   Definition cur_attrs (m : hamap) (e : ename) : attrs :=
-    match ha_get m e with Some s => snd s | None => [] end.
+    match ha_get m e with Some s => hs_attrs s | None => [] end.
 
   (* R2 / R3 / R6: d.n = rhs and d.n.k = rhs *)
   Definition spec_assign (locals : pyvars) (st : mstate) (parts : list ident) (rhs : pyval) : res mstate :=
@@ -124,8 +125,8 @@ Section Spec.
             end
         | _ =>        (* the state variable - also when a function or service has that name *)
             match rhs with
-            | PVal v => Ok (with_ha st (ha_write H m (d, n) (h_str H v) (cur_attrs m (d, n))))
-            | PSnap v dct => Ok (with_ha st (ha_write H m (d, n) (h_str H v) (without_virtual dct)))
+            | PVal v => Ok (with_ha st (ha_write H now m (d, n) (h_str H v) (cur_attrs m (d, n))))
+            | PSnap v dct => Ok (with_ha st (ha_write H now m (d, n) (h_str H v) (without_virtual dct)))
             | _ => Raise EUnmodelled
             end
         end
@@ -137,7 +138,7 @@ Section Spec.
             | PVal v =>
                 match ha_get m (d, n) with
                 | None => Raise ENameError
-                | Some s => Ok (with_ha st (ha_write H m (d, n) (fst s) (aset k v (snd s))))
+                | Some s => Ok (with_ha st (ha_write H now m (d, n) (hs_val s) (aset k v (hs_attrs s))))
                 end
             | _ => Raise EUnmodelled
             end
@@ -152,13 +153,13 @@ Section Spec.
         match value with
         | PVal v =>
             let s' := if is_none v
-                      then match ha_get m (d, n) with Some s => fst s | None => h_str H v_none end
+                      then match ha_get m (d, n) with Some s => hs_val s | None => h_str H v_none end
                       else h_str H v in
             let base := match nattr with Some a => a | None => cur_attrs m (d, n) end in
-            Ok (ha_write H m (d, n) s' (aupdate base kw))
+            Ok (ha_write H now m (d, n) s' (aupdate base kw))
         | PSnap v dct =>
             let base := match nattr with Some a => a | None => without_virtual dct end in
-            Ok (ha_write H m (d, n) (h_str H v) (aupdate base kw))
+            Ok (ha_write H now m (d, n) (h_str H v) (aupdate base kw))
         | _ => Raise EUnmodelled
         end
     | _ => Raise ENameError
@@ -170,7 +171,7 @@ Section Spec.
     | [d; n; k] =>
         match ha_get m (d, n) with
         | None => Raise ENameError
-        | Some s => Ok (ha_write H m (d, n) (fst s) (aset k v (snd s)))
+        | Some s => Ok (ha_write H now m (d, n) (hs_val s) (aset k v (hs_attrs s)))
         end
     | _ => Raise ENameError
     end.
@@ -186,7 +187,7 @@ Section Spec.
     | [d; n; k] =>
         match ha_get m (d, n) with
         | None => Raise ENameError
-        | Some s => if amem k (snd s) then Ok (ha_write H m (d, n) (fst s) (adel k (snd s)))
+        | Some s => if amem k (hs_attrs s) then Ok (ha_write H now m (d, n) (hs_val s) (adel k (hs_attrs s)))
                     else Raise EAttributeError
         end
     | _ => Raise ENameError
@@ -217,7 +218,7 @@ Section Spec.
     | [d; n] => match ha_get m (d, n) with Some _ => true | None => false end
     | [d; n; k] =>
         match ha_get m (d, n) with
-        | Some s => svc_method svcargs d k || amem k (snd s) || mem_ident k doc_virtual_attrs
+        | Some s => svc_method svcargs d k || amem k (hs_attrs s) || mem_ident k doc_virtual_attrs
                     || mem_ident k state_callable_attrs
         | None => false
         end
@@ -230,7 +231,7 @@ Section Spec.
     | inl (PSnap _ dct) => Ok (PDict (without_virtual dct))
     | inl (PVal v) => if is_none v then Raise EAttributeError else Raise EUnmodelled
     | inl _ => Raise EUnmodelled
-    | inr [d; n] => match ha_get m (d, n) with Some s => Ok (PDict (snd s)) | None => Ok (PVal v_none) end
+    | inr [d; n] => match ha_get m (d, n) with Some s => Ok (PDict (hs_attrs s)) | None => Ok (PVal v_none) end
     | inr _ => Raise ENameError
     end.
 
@@ -274,16 +275,19 @@ Section Spec.
 
   Definition spec_step (st : mstate) (s : step) : option (res pyval) * mstate :=
     match s with
-    | SExt x => (None, ext_op H st x)                 (* the environment: not pyscript's doing *)
+    | SExt x => (None, ext_op H now st x)                 (* the environment: not pyscript's doing *)
     | SScript locals o => let r := spec_op locals st o in (Some (fst r), snd r)
     end.
 
-  Fixpoint run_spec (st : mstate) (steps : list step) : list (option (res pyval)) * mstate :=
-    match steps with
-    | [] => ([], st)
-    | s :: r =>
-        let o := spec_step st s in
-        let rest := run_spec (snd o) r in
-        (fst o :: fst rest, snd rest)
-    end.
 End Spec.
+
+(* a run starting at logical time [now]; every step takes one tick *)
+Fixpoint run_spec (H : host) (funcs : list ename) (svcargs : list (ident * ident)) (now : N) (st : mstate)
+         (steps : list step) : list (option (res pyval)) * mstate :=
+  match steps with
+  | [] => ([], st)
+  | s :: r =>
+      let o := spec_step H funcs svcargs now st s in
+      let rest := run_spec H funcs svcargs (N.succ now) (snd o) r in
+      (fst o :: fst rest, snd rest)
+  end.
